@@ -227,6 +227,12 @@ func (w *Wallet) NewPolicyLock(rng *rand.Rand, nearHeight uint64, nearTime time.
 // PickLock returns a destination for a new output. v2ok says whether v2-only
 // lock kinds may be used (they are unspendable on a chain that never reaches v2).
 func (w *Wallet) PickLock(rng *rand.Rand, v2ok bool, nearHeight uint64, nearTime time.Time) *Lock {
+	switch rng.IntN(30) {
+	case 0:
+		return w.NewManyKeyUCLock(rng)
+	case 1:
+		return w.ZeroSigUC(rng)
+	}
 	c := rng.IntN(10)
 	switch {
 	case c < 3:
@@ -273,4 +279,47 @@ func (w *Wallet) Satisfy(l *Lock, sigHash types.Hash256) types.SatisfiedPolicy {
 	}
 	sp.Preimages = append(sp.Preimages, l.Preimages...)
 	return sp
+}
+
+// NewManyKeyUCLock draws unlock conditions with more than 64 listed keys
+// (m-of-n with the signers among the highest indices).
+func (w *Wallet) NewManyKeyUCLock(rng *rand.Rand) *Lock {
+	n := 65 + rng.IntN(8)
+	m := 2 + rng.IntN(2)
+	uc := types.UnlockConditions{SignaturesRequired: uint64(m)}
+	// distinct keys: derive fresh keys so that indices identify keys uniquely
+	var privs []types.PrivateKey
+	for i := 0; i < n; i++ {
+		var seed [32]byte
+		binary.LittleEndian.PutUint64(seed[:], rng.Uint64())
+		binary.LittleEndian.PutUint64(seed[8:], uint64(i))
+		k := types.NewPrivateKeyFromSeed(seed[:])
+		privs = append(privs, k)
+		w.byPub[k.PublicKey()] = k
+		uc.PublicKeys = append(uc.PublicKeys, k.PublicKey().UnlockKey())
+	}
+	var signers []int
+	for i := n - m; i < n; i++ {
+		signers = append(signers, i)
+	}
+	if rng.IntN(2) == 0 {
+		signers[0] = rng.IntN(n - m) // one low index, the rest high
+	}
+	l := &Lock{Kind: "uc-many-keys", Addr: uc.UnlockHash(), UC: &uc, UCSigners: signers,
+		Policy: types.SpendPolicy{Type: types.PolicyTypeUnlockConditions(uc)}, FullPolicy: types.SpendPolicy{Type: types.PolicyTypeUnlockConditions(uc)}}
+	for _, i := range signers {
+		l.PolKeys = append(l.PolKeys, privs[i].PublicKey())
+	}
+	return w.add(l)
+}
+
+// ZeroSigUC is an unlock-conditions address that requires no signature
+// (anyone can spend it); with an optional list of keys that are never needed.
+func (w *Wallet) ZeroSigUC(rng *rand.Rand) *Lock {
+	uc := types.UnlockConditions{}
+	if rng.IntN(2) == 0 {
+		uc.PublicKeys = []types.UnlockKey{w.randKey(rng).PublicKey().UnlockKey()}
+	}
+	return w.add(&Lock{Kind: "uc-zero-sigs", Addr: uc.UnlockHash(), UC: &uc, UCSigners: nil,
+		Policy: types.SpendPolicy{Type: types.PolicyTypeUnlockConditions(uc)}, FullPolicy: types.SpendPolicy{Type: types.PolicyTypeUnlockConditions(uc)}})
 }
